@@ -1,11 +1,11 @@
 (* C27 -- property theorems only.  [fixed] is the control flow of nifty.cl.minimization.optimize_kl
-   with fixes/C27-1..4.patch applied, [orig] the pinned control flow (see Model.v). *)
+   with fixes/C27-1..5.patch applied, [orig] the pinned control flow (see Model.v). *)
 From Coq Require Import List Bool Arith Lia.
 Import ListNotations.
 Require Import NV.C27.Model NV.C27.Proofs.
 
 (* Every configuration that meets the documented preconditions -- initial_index < total_iterations
-   (with an output directory a positive initial_index continues an earlier call into it), resume
+   (also on a fresh output directory: fix C27-5), resume
    only with an output directory, an inspect callback of one or two parameters (or none), no
    samples without a sampling controller, fresh stochasticity in iteration 0, and, when resuming,
    a directory left by a completed iteration -- runs to completion: for every number of
@@ -67,7 +67,22 @@ Theorem C27_mean_file_iff_residual : forall (o : opts) (e : env) (i : nat) (s s'
   has (files s') (FMean (fn o i)) = sl_res s'.
 Proof. exact mean_file_iff_residual. Qed.
 
-(* ---- the pinned control flow is refuted on four counts (each witness is replayed on the
+(* Which randomness an iteration uses: iteration i pushes child number src_of fresh i of
+   spawn_sseq(total_iterations) -- the child of the last iteration <= i with fresh stochasticity --
+   whatever the first iteration of THIS call is (initial_index, resume point): a run split into
+   segments pushes exactly what the uninterrupted run pushes. *)
+Theorem C27_push_source : forall (v : variant) (o : opts) (e : env) (i : nat) (s s' : lstate) (b : bool),
+  iteration v o e i s = Ok (s', b) -> In (APush i (src_of (fresh o) i)) (acts s').
+Proof. exact iteration_pushes_src. Qed.
+
+Theorem C27_push_source_spec : forall (f : nat -> bool) (i : nat),
+  src_of f i <= i /\ (f 0 = true -> f (src_of f i) = true) /\ (f i = true -> src_of f i = i) /\
+  (f (S i) = false -> src_of f (S i) = src_of f i).
+Proof.
+  intros f i. split; [apply src_of_le|]. split; [apply src_of_fresh|]. split; [apply src_of_id|apply src_of_stale].
+Qed.
+
+(* ---- the pinned control flow is refuted on five counts (each witness is replayed on the
         implementation by the check: corpus/C27) ---- *)
 
 (* F8: dry_run leaves total_iterations entries on the RNG stack, a terminate callback one *)
@@ -118,11 +133,17 @@ Theorem C27_orig_stale_mean_refuted :
     valid o e /\ run orig o e = Ok r /\ r_res r = false /\ has (r_files r) (FMean Latest) = true.
 Proof. exact orig_stale_mean. Qed.
 
+(* initial_index = 1 with a fresh output directory: FileNotFoundError without fix C27-5, fine with it *)
+Theorem C27_orig_fresh_dir_refuted :
+  exists (o : opts) (e : env), valid o e /\ init_index o = 1 /\ outdir o = true /\
+    run (mkVar true true true true false) o e = Err ENotFound /\ exists r, run fixed o e = Ok r.
+Proof. exact orig_fresh_dir. Qed.
+
 (* each fix is needed on its own: with only the other two applied the witness still fails *)
 Theorem C27_each_fix_needed :
-  (exists o e r, valid o e /\ run (mkVar false true true true) o e = Ok r /\ r_depth r <> depth0 e /\ r_state_loaded r = false) /\
-  (exists o e, valid o e /\ run (mkVar true false true true) o e = Err EUnbound) /\
-  (exists o e r, valid o e /\ outdir o = false /\ run (mkVar true true false true) o e = Ok r /\ r_foreign r <> []).
+  (exists o e r, valid o e /\ run (mkVar false true true true true) o e = Ok r /\ r_depth r <> depth0 e /\ r_state_loaded r = false) /\
+  (exists o e, valid o e /\ run (mkVar true false true true true) o e = Err EUnbound) /\
+  (exists o e r, valid o e /\ outdir o = false /\ run (mkVar true true false true true) o e = Ok r /\ r_foreign r <> []).
 Proof. exact each_fix_needed. Qed.
 
 (* ---- non-vacuity: a valid configuration with output directory, resume from a directory left by
@@ -138,7 +159,7 @@ Example C27_initial_index_example :
   match run fixed o e with
   | Ok r => r_depth r = 1 /\ r_n r = 2 /\ has (r_files r) (FSample (Iter 3) 1) = true /\
             has (r_files r) (FMinisanityHist (Iter 2)) = true /\
-            r_acts r = [APush 2; AMinimise 2 1; AInspect 2 2; APop; APush 3; AMinimise 3 1; AInspect 3 2; APop]
+            r_acts r = [APush 2 2; AMinimise 2 1; AInspect 2 2; APop; APush 3 3; AMinimise 3 1; AInspect 3 2; APop]
   | Err _ => False
   end.
 Proof.
@@ -154,7 +175,7 @@ Example C27_valid_resume_example :
                  (Some 0) 2 false false in
   match run fixed o e with
   | Ok r => r_depth r = 2 /\ r_state_loaded r = true /\ r_n r = 4 /\ r_res r = true /\
-            r_acts r = [APush 1; ATransition 1; AMinimise 1 2; AInspect 1 3; ATerminate 1 true; APop]
+            r_acts r = [APush 1 0; ATransition 1; AMinimise 1 2; AInspect 1 3; ATerminate 1 true; APop]
   | Err _ => False
   end.
 Proof. vm_compute. auto. Qed.
